@@ -3,7 +3,7 @@
 //! usage: drv_multilayer --programs <file> --out <file> [--jobs J] [--timeout-ms T] [--max-hangs N]
 //!        drv_multilayer --random N --len L --out <file> [--dump-programs <file>] [--avoid-hang]
 //!
-//! Program: {"kinds":["mem","disk"],"caps":[1,1000],"hooks":false,"keys":["a","b"],
+//! Program: {"kinds":["mem","disk"],"caps":[1,1000],"budgets":[40,0],"policies":["ttl","lru"],"hooks":false,"keys":["a","b.tmp"],
 //!           "strategy":"on_hit","ops":[{"op":"put","k":"a","v":"v1"}, ...]}
 //! Operations (layer indices 0-based, as in the API):
 //!   put k v | put_ttl k v ttl(long|short) | put_layer k v layer | get k | get_layer k layer |
@@ -20,7 +20,7 @@ use bytes::Bytes;
 use cascette_cache::config::{DiskCacheConfig, MemoryCacheConfig, MultiLayerCacheConfig, PromotionStrategy};
 use cascette_cache::key::RibbitKey;
 use cascette_cache::multi_layer::MultiLayerCacheImpl;
-use cascette_cache::traits::{AsyncCache, MultiLayerCache};
+use cascette_cache::traits::{AsyncCache, EvictionPolicy, MultiLayerCache};
 use cascette_cache::validation::{Md5ValidationHooks, NgdpValidationHooks};
 use cascette_crypto::ContentKey;
 use serde_json::{Value, json};
@@ -77,9 +77,36 @@ fn check_concretisation() {
         assert_eq!(value_name(&value_bytes(n)), n);
     }
     let mut ks = std::collections::HashSet::new();
-    for k in ["a", "b", "c", "d"] {
+    for k in ["a", "b", "c", "d", "a.tmp", "b.TMP", "c.TMP"] {
         assert!(ks.insert(key(k).as_cache_key().to_string()), "key concretisation collides");
     }
+}
+
+fn policy(name: &str) -> EvictionPolicy {
+    match name {
+        "lfu" => EvictionPolicy::Lfu,
+        "fifo" => EvictionPolicy::Fifo,
+        "random" => EvictionPolicy::Random,
+        "ttl" => EvictionPolicy::Ttl,
+        "lru" => EvictionPolicy::Lru,
+        other => panic!("driver: unknown eviction policy {other}"),
+    }
+}
+
+/// bytes of every value name `value_name` can produce (except "other")
+fn size_table() -> Value {
+    let mut m = serde_json::Map::new();
+    for n in VALUE_NAMES {
+        let l = value_bytes(n).len();
+        m.insert(n.to_string(), json!(l));
+        if n != "bad" {
+            if l > 0 {
+                m.insert(format!("{n}-"), json!(l - 1));
+            }
+            m.insert(format!("{n}+"), json!(l + 1));
+        }
+    }
+    Value::Object(m)
 }
 
 fn strategy(name: &str) -> PromotionStrategy {
@@ -120,7 +147,15 @@ fn new_run(prog: &Value) -> Run {
             disk_dir = Some(d.clone());
             cfg = cfg.add_disk_layer(DiskCacheConfig::new(d).with_max_files(caps[i] as usize).with_default_ttl(LONG_TTL));
         } else {
-            cfg = cfg.add_memory_layer(MemoryCacheConfig::new().with_max_entries(caps[i] as usize).with_default_ttl(LONG_TTL));
+            let mut m = MemoryCacheConfig::new()
+                .with_max_entries(caps[i] as usize)
+                .with_default_ttl(LONG_TTL)
+                .with_eviction_policy(policy(prog["policies"][i].as_str().unwrap_or("lru")));
+            // 0 = no byte budget given by the program: the library's default (100 MB) is never reached here
+            if let Some(b) = prog["budgets"][i].as_u64().filter(|b| *b > 0) {
+                m = m.with_max_memory(b as usize);
+            }
+            cfg = cfg.add_memory_layer(m);
         }
     }
     // the constructors spawn background tasks: they need a runtime context (the tasks are never polled:
@@ -278,7 +313,11 @@ fn observe(run: &Run, seq: u64) -> Value {
 }
 
 fn header(prog: &Value) -> Value {
+    let nl = prog["kinds"].as_array().unwrap().len();
+    let budgets: Vec<u64> = (0..nl).map(|i| prog["budgets"][i].as_u64().unwrap_or(0)).collect();
+    let policies: Vec<&str> = (0..nl).map(|i| prog["policies"][i].as_str().unwrap_or("lru")).collect();
     json!({"op": "new", "kinds": prog["kinds"], "caps": prog["caps"], "hooks": prog["hooks"].as_bool().unwrap_or(false),
+           "budgets": budgets, "policies": policies, "sizes": size_table(),
            "keys": prog["keys"], "strategy": prog["strategy"].as_str().unwrap_or("on_hit"),
            "hookimpl": prog["hookimpl"].as_str().unwrap_or("md5")})
 }
@@ -355,11 +394,18 @@ fn run_random(prog: &Value, out: &Emit) {
         _ => (vec!["mem", "mem"], vec![c0, 2 + rng.below(2)]),
     };
     let nk = 2 + rng.below(3) as usize;
-    let keys: Vec<String> = ["a", "b", "c", "d"][..nk].iter().map(|x| x.to_string()).collect();
+    // now and then key names that end in the extension the disk layer gives its temporary files
+    let pool = if rng.chance(1, 4) { ["a.tmp", "b", "c.TMP", "d"] } else { ["a", "b", "c", "d"] };
+    let keys: Vec<String> = pool[..nk].iter().map(|x| x.to_string()).collect();
+    // memory layers: any eviction policy, sometimes a byte budget of two or three values
+    let budget = if rng.chance(1, 3) { *rng.pick(&[40u64, 60]) } else { 0 };
+    let policies: Vec<&str> = kinds.iter().map(|k| if *k == "mem" { *rng.pick(&["lru", "lfu", "fifo", "random", "ttl"]) } else { "lru" }).collect();
+    let budgets: Vec<u64> = kinds.iter().map(|k| if *k == "mem" { budget } else { 0 }).collect();
     let vals = ["v1", "v2", "v3", "e"];
     let strat = *rng.pick(&["on_hit", "after2", "freq", "age", "manual"]);
     let hookimpl = *rng.pick(&["md5", "ngdp"]);
-    let cfg = json!({"kinds": kinds, "caps": caps, "hooks": rng.chance(1, 2), "keys": keys, "strategy": strat, "hookimpl": hookimpl});
+    let cfg = json!({"kinds": kinds, "caps": caps, "budgets": budgets, "policies": policies, "hooks": rng.chance(1, 2),
+                     "keys": keys, "strategy": strat, "hookimpl": hookimpl});
     let run = new_run(&cfg);
     out.ev(header(&cfg));
     let nl = kinds.len() as u64;
